@@ -38,6 +38,14 @@ type Config struct {
 	PrimSize  uint32 `json:"prim_size"` // primary file size limit, 0 = default
 	FileCache int    `json:"file_cache"`
 	Sync      bool   `json:"sync_on_flush,omitempty"` // SyncOnFlush option (fsync as part of Flush)
+	// StartPrim / StartIdx: a fresh store starts as GC leaves a long-lived
+	// one whose earlier files are all gone: the header's first file is this
+	// number and that (empty) file is the current one. With numbers chosen so
+	// that file number x file size reaches 2^32, every position the store
+	// hands out needs more than 32 bits. 0 = start at file 0 as usual.
+	// StartPrim only applies to the multihash primary.
+	StartPrim uint32 `json:"start_prim,omitempty"`
+	StartIdx  uint32 `json:"start_idx,omitempty"`
 }
 
 // KeySpec is one key of a case's pool: a digest and how it is encoded.
@@ -278,7 +286,33 @@ func storeOptions(cfg Config, extra ...store.Option) []store.Option {
 	return append(opts, extra...)
 }
 
+// forgeStartFiles prepares a directory that holds no store yet, see
+// Config.StartPrim.
+func forgeStartFiles(dir string, cfg Config) {
+	if cfg.StartPrim == 0 && cfg.StartIdx == 0 {
+		return
+	}
+	if ents, err := os.ReadDir(dir); err != nil || len(ents) > 0 {
+		return // not a fresh directory
+	}
+	if cfg.StartPrim > 0 && cfg.Primary == store.MultihashPrimary {
+		hdr := fmt.Sprintf(`{"Version":1,"MaxFileSize":%d,"FirstFile":%d}`, effectiveSize(cfg.PrimSize), cfg.StartPrim)
+		os.WriteFile(filepath.Join(dir, dataBase+".info"), []byte(hdr), 0o644)
+		os.WriteFile(filepath.Join(dir, fmt.Sprintf("%s.%d", dataBase, cfg.StartPrim)), nil, 0o644)
+	}
+	if cfg.StartIdx > 0 {
+		prim := uint64(0)
+		if cfg.Primary == store.MultihashPrimary {
+			prim = effectiveSize(cfg.PrimSize)
+		}
+		hdr := fmt.Sprintf(`{"Version":3,"BucketsBits":%d,"MaxFileSize":%d,"FirstFile":%d,"PrimaryFileSize":%d}`, cfg.Bits, effectiveSize(cfg.IdxSize), cfg.StartIdx, prim)
+		os.WriteFile(filepath.Join(dir, idxBase+".info"), []byte(hdr), 0o644)
+		os.WriteFile(filepath.Join(dir, fmt.Sprintf("%s.%d", idxBase, cfg.StartIdx)), nil, 0o644)
+	}
+}
+
 func openStore(dir string, cfg Config, extra ...store.Option) (*store.Store, error) {
+	forgeStartFiles(dir, cfg)
 	return store.OpenStore(context.Background(), cfg.Primary, filepath.Join(dir, dataBase), filepath.Join(dir, idxBase), cfg.Immutable, storeOptions(cfg, extra...)...)
 }
 
